@@ -125,7 +125,7 @@ func cmdEscapeCli(p *lang.Process) error {
 		s = p.Parameters.StringArray()
 	}
 
-	escape.CommandLine(s)
+	escape.Statement(s)
 
 	_, err := p.Stdout.Writeln([]byte(strings.Join(s, " ")))
 	return err
